@@ -60,7 +60,7 @@ def run_pool(idxs, jobs):
     tasks.sort(key=lambda t: 0 if t[1] else 1)
     ctx = multiprocessing.get_context('fork')
     out = {}
-    with ctx.Pool(min(jobs, len(tasks))) as pool:
+    with ctx.Pool(min(jobs, len(tasks)), maxtasksperchild=1) as pool:     # a fresh process (fresh z3 context) per unit: reproducible verdicts
         for i, shard, r in pool.imap_unordered(_work, tasks):
             if i not in out:
                 out[i] = r
@@ -73,7 +73,7 @@ def run_pool(idxs, jobs):
                 m['error'] = m['error'] or r['error']
                 m['out_of_reach'] = m['out_of_reach'] or r['out_of_reach']
                 m['covers'] = sorted(set(m['covers']) | set(r['covers']))
-                for k in ('assumed_contracts', 'unknown_calls'):
+                for k in ('assumed_contracts', 'unknown_calls', 'lemmas_used'):
                     m[k] = sorted(set(m[k]) | set(r[k]))
     return out
 
@@ -140,8 +140,18 @@ def main(argv=None):
             res[i] = r
             reran.append(_UNITS[i].name)
 
+    # ---- lemmas used as assumptions must be established by their own unit in this same check
+    established = set()
+    for i, r in res.items():
+        u = _UNITS[i]
+        if u.name.startswith('lemma/') and not r['error'] and not r['out_of_reach'] and r['obligations'] and all(o['status'] == 'discharged' for o in r['obligations']):
+            established.add(u.name[len('lemma/'):])
     # ---- classify
     errors, undecided, refuted_prop, helper_open = [], [], [], []
+    for i, r in res.items():
+        for nm in r.get('lemmas_used', []):
+            if nm not in established and not a.only:
+                undecided.append((_UNITS[i].name, 'uses lemma %s which is not established on this run' % nm))
     n_obl = n_dis = 0
     by_backend = {}
     solver_secs = 0.0
